@@ -1,4 +1,5 @@
 import CCVerif.Model.Extract
+import CCVerif.Lemmas.Extract
 /-!
 # C13 — basis and maximal-part extraction return closed, complete, well-formed schemas
 
@@ -60,5 +61,219 @@ example : WfSource srcX1D2D1 := by
   rcases hit with rfl | rfl | rfl <;> simp at hi <;> subst hi <;> decide
 
 example : extractBasis srcX1D2D1 [3] = some [1, 3, 2] := by decide
+
+/-! ## proofs -/
+
+instance (s : Source) : Decidable (WfSource s) :=
+  inferInstanceAs (Decidable ((s.map (·.uid)).Nodup ∧ ∀ it ∈ s, ∀ i ∈ it.inputs, s.contains i = true))
+
+theorem InMax.inv {s : Source} {args : List Nat} {u : Nat} (h : InMax s args u) :
+    u ∈ args ∨ ∃ it ∈ s, it.uid = u ∧ it.emptyDef = false ∧ ∀ i ∈ it.inputs, InMax s args i := by
+  cases h with
+  | sel h => exact Or.inl h
+  | add hit he hin => exact Or.inr ⟨_, hit, rfl, he, hin⟩
+
+theorem DepOf.trans {s : Source} {u v a : Nat} (h1 : DepOf s u v) (h2 : DepOf s v a) :
+    DepOf s u a := by
+  induction h2 with
+  | refl => exact h1
+  | step hit huid hi _ ih => exact DepOf.step hit huid hi ih
+
+/-! ### maximal part
+
+`maxPart_spec_statement` is **false as written**: its third clause (the result is closed under
+recorded dependencies) fails for a selected base set whose (erroneous, non-empty) definition
+mentions another constituent. `IsCorrectlyDefined` accepts any base set among the arguments without
+looking at its inputs, and `CheckCst` never adds a constituent with an empty definition, so the
+mentioned constituent stays outside. In the C++ this is reachable: `CheckConstituenta` only
+*reports* a non-empty definition of a base set (`cstNonemptyBase`), the dependency graph still
+records the mentions (`UpdatableGraph::UpdateFor` does not look at the type). -/
+
+/-- `X1`, and a base set `X2` whose definition mentions `X1` -/
+def srcBaseWithInput : Source := [⟨1, [], true, true⟩, ⟨2, [1], false, true⟩]
+
+theorem maxPart_baseWithInput_counterexample :
+    WfSource srcBaseWithInput ∧ maxPart false srcBaseWithInput [2] = some [2] ∧
+    (⟨2, [1], false, true⟩ : Item) ∈ srcBaseWithInput ∧ (1 : Nat) ∉ [2] := by decide
+
+/-- the statement as written does not hold -/
+theorem maxPart_spec_statement_false : ¬ maxPart_spec_statement := by
+  intro h
+  have hc := maxPart_baseWithInput_counterexample
+  have := (h srcBaseWithInput [2] [2] hc.1 hc.2.1).2.2 ⟨2, [1], false, true⟩ hc.2.2.1
+    (by decide) 1 (by decide)
+  exact hc.2.2.2 this
+
+/-- a base set records no dependency (true for every schema without the `cstNonemptyBase` error) -/
+def BaseSetsHaveNoInputs (s : Source) : Prop := ∀ it ∈ s, it.isBaseSet = true → it.inputs = []
+
+/-- an empty definition mentions nothing (always true of the C++: `InputsFor` is computed from the
+definition text; a consistency condition on the abstraction `Item`) -/
+def EmptyDefsHaveNoInputs (s : Source) : Prop := ∀ it ∈ s, it.emptyDef = true → it.inputs = []
+
+/-- `EmptyDefsHaveNoInputs` is needed too (at the level of the abstraction only): a selected
+constituent with an empty definition is accepted by `CheckCst` whatever its recorded inputs -/
+theorem maxPart_emptyDefWithInput_counterexample :
+    let s : Source := [⟨1, [], true, true⟩, ⟨2, [1], true, false⟩]
+    WfSource s ∧ (∀ it ∈ s, it.isBaseSet = true → it.inputs = []) ∧
+      maxPart false s [2] = some [2] ∧ (1 : Nat) ∉ [2] := by decide
+
+instance (s : Source) : Decidable (BaseSetsHaveNoInputs s) :=
+  inferInstanceAs (Decidable (∀ it ∈ s, it.isBaseSet = true → it.inputs = []))
+
+instance (s : Source) : Decidable (EmptyDefsHaveNoInputs s) :=
+  inferInstanceAs (Decidable (∀ it ∈ s, it.emptyDef = true → it.inputs = []))
+
+/-- **maxPart_spec_core**: membership and order clauses hold unconditionally; the closure clause
+holds for every selected constituent which, if it is a base set or has an empty definition, records
+no dependency -/
+theorem maxPart_spec_core (s : Source) (args res : List Nat) (hwf : WfSource s)
+    (h : maxPart false s args = some res) :
+    (∀ u, u ∈ res ↔ (s.contains u = true ∧ InMax s args u)) ∧
+    res.Sublist (s.map (·.uid)) ∧
+    (∀ it ∈ s, it.uid ∈ res → (it.isBaseSet = true → it.inputs = []) →
+      (it.emptyDef = true → it.inputs = []) → ∀ i ∈ it.inputs, i ∈ res) := by
+  unfold maxPart at h
+  split at h
+  case isFalse => cases h
+  rename_i hdef
+  simp only [Bool.false_eq_true, if_false, Option.some.injEq] at h
+  obtain ⟨_, hargs⟩ := maxPartDefined_elim hdef
+  have hsub : ∀ u ∈ args, u ∈ maxPartSet s args := scanFix_sub s _ args
+  have hsound : ∀ u ∈ maxPartSet s args, s.contains u = true ∧ InMax s args u := by
+    apply scanFix_inv (fun u => s.contains u = true ∧ InMax s args u) s
+    · intro it hit he hin
+      exact ⟨Source.contains_of_mem hit, InMax.add hit he (fun i hi => (hin i hi).2)⟩
+    · intro u hu
+      obtain ⟨it, hf, _⟩ := hargs u hu
+      obtain ⟨hit, rfl⟩ := Source.find_some hf
+      exact ⟨Source.contains_of_mem hit, InMax.sel hu⟩
+  have hcompl : ∀ u, InMax s args u → u ∈ maxPartSet s args := by
+    intro u hu
+    induction hu with
+    | sel h => exact hsub _ h
+    | add hit he _ ih => exact maxPartSet_closed s args _ hit he ih
+  have hmem : ∀ u, u ∈ res ↔ u ∈ maxPartSet s args := by
+    intro u
+    rw [← h]
+    exact mem_sortSubset (fun u hu => (hsound u hu).1) u
+  refine ⟨?_, ?_, ?_⟩
+  · intro u
+    rw [hmem]
+    exact ⟨hsound u, fun h => hcompl u h.2⟩
+  · rw [← h]
+    exact sortSubset_sublist (fun u hu => (hsound u hu).1)
+  · intro it hit hres hb he i hi
+    rw [hmem] at hres ⊢
+    have hfind := Source.find_of_mem hwf.1 hit
+    rcases (hsound _ hres).2.inv with ha | ⟨it', hit', huid, hed, hin⟩
+    · obtain ⟨it', hf', hc⟩ := hargs _ ha
+      rw [hfind] at hf'
+      cases hf'
+      rcases hc with hc | hc
+      · rw [hb hc] at hi
+        cases hi
+      · cases hed : it.emptyDef with
+        | true =>
+          rw [he hed] at hi
+          cases hi
+        | false => exact hsub i ((checkCst_nonempty hed).1 hc i hi)
+    · have hfind' := Source.find_of_mem hwf.1 hit'
+      rw [huid, hfind] at hfind'
+      cases hfind'
+      exact hcompl i (hin i hi)
+
+/-- **maxPart_spec_partial**: `maxPart_spec_statement` under the two extra hypotheses on the
+source -/
+theorem maxPart_spec_partial (s : Source) (args res : List Nat) (hwf : WfSource s)
+    (hbase : BaseSetsHaveNoInputs s) (hempty : EmptyDefsHaveNoInputs s)
+    (h : maxPart false s args = some res) :
+    (∀ u, u ∈ res ↔ (s.contains u = true ∧ InMax s args u)) ∧
+    res.Sublist (s.map (·.uid)) ∧
+    (∀ it ∈ s, it.uid ∈ res → ∀ i ∈ it.inputs, i ∈ res) := by
+  obtain ⟨h1, h2, h3⟩ := maxPart_spec_core s args res hwf h
+  exact ⟨h1, h2, fun it hit hres => h3 it hit hres (hbase it hit) (hempty it hit)⟩
+
+/-! ### basis -/
+
+/-- **basis_spec**: the extracted basis is exactly the set of the arguments and their transitive
+dependencies, in list order, and is closed under dependencies -/
+theorem basis_spec : basis_spec_statement := by
+  intro s args res hwf h
+  unfold extractBasis at h
+  split at h
+  case isFalse => cases h
+  rename_i hdef
+  rw [Bool.and_eq_true, List.all_eq_true] at hdef
+  obtain ⟨_, hargs⟩ := hdef
+  simp only [Option.some.injEq] at h
+  have hfilter : args.filter s.contains = args := List.filter_eq_self.2 hargs
+  have hsound : ∀ u ∈ expandInputs s args, s.contains u = true ∧ ∃ a ∈ args, DepOf s u a := by
+    unfold expandInputs
+    rw [hfilter]
+    apply expandInputsGo_inv (fun u => s.contains u = true ∧ ∃ a ∈ args, DepOf s u a) s
+    · intro u ⟨_, a, ha, hd⟩ i hi
+      rcases insOf_cases s u with h0 | ⟨it, hf, h0⟩
+      · rw [h0] at hi
+        cases hi
+      · rw [h0] at hi
+        obtain ⟨hit, huid⟩ := Source.find_some hf
+        exact ⟨hwf.2 it hit i hi, a, ha,
+          DepOf.trans (DepOf.step hit huid hi (DepOf.refl i)) hd⟩
+    · intro u hu
+      exact ⟨hargs u hu, u, hu, DepOf.refl u⟩
+    · intro u hu
+      cases hu
+  obtain ⟨_, hstack, hclosed⟩ := expandInputsGo_closed s _ (args.filter s.contains) []
+    (expandInputs_fuel s args) (by intro u hu; cases hu)
+  have hstack' : ∀ u ∈ args, u ∈ expandInputs s args := by
+    intro u hu
+    exact hstack u (by rw [hfilter]; exact hu)
+  have hclosed' : ∀ it ∈ s, it.uid ∈ expandInputs s args →
+      ∀ i ∈ it.inputs, i ∈ expandInputs s args := by
+    intro it hit hu i hi
+    exact hclosed it.uid hu i (by rw [insOf_of_find (Source.find_of_mem hwf.1 hit)]; exact hi)
+  have hcompl : ∀ u a, DepOf s u a → a ∈ expandInputs s args → u ∈ expandInputs s args := by
+    intro u a hd
+    induction hd with
+    | refl => exact id
+    | step hit huid hi _ ih =>
+      intro ha
+      subst huid
+      exact ih (hclosed' _ hit ha _ hi)
+  have hmem : ∀ u, u ∈ res ↔ u ∈ expandInputs s args := by
+    intro u
+    rw [← h]
+    exact mem_sortSubset (fun u hu => (hsound u hu).1) u
+  refine ⟨?_, ?_, ?_⟩
+  · intro u
+    rw [hmem]
+    exact ⟨fun hu => (hsound u hu).2, fun ⟨a, ha, hd⟩ => hcompl u a hd (hstack' a ha)⟩
+  · rw [← h]
+    exact sortSubset_sublist (fun u hu => (hsound u hu).1)
+  · intro it hit hres i hi
+    rw [hmem] at hres ⊢
+    exact hclosed' it hit hres i hi
+
+/-! ### non-vacuity -/
+
+/-- `X1 X2 D5 D4 D3 D6` with `D3:=X1`, `D4:=D3`, `D5:=D4`, `D6:=X2,D3` (list order against the
+dependency order) -/
+def srcDemo : Source :=
+  [⟨1, [], true, true⟩, ⟨2, [], true, true⟩, ⟨5, [4], false, false⟩, ⟨4, [3], false, false⟩,
+   ⟨3, [1], false, false⟩, ⟨6, [2, 3], false, false⟩]
+
+/-- the hypotheses of `maxPart_spec_partial` are satisfiable and the operation succeeds -/
+example : WfSource srcDemo ∧ BaseSetsHaveNoInputs srcDemo ∧ EmptyDefsHaveNoInputs srcDemo ∧
+    maxPart false srcDemo [1] = some [1, 5, 4, 3] := by decide
+
+/-- the hypotheses of `basis_spec` are satisfiable and the operation succeeds -/
+example : WfSource srcDemo ∧ extractBasis srcDemo [6, 6] = some [1, 2, 3, 6] := by decide
+
+example : ∀ u, u ∈ [1, 5, 4, 3] ↔ (srcDemo.contains u = true ∧ InMax srcDemo [1] u) :=
+  (maxPart_spec_partial srcDemo [1] _ (by decide) (by decide) (by decide) (by decide)).1
+
+example : ∀ u, u ∈ [1, 2, 3, 6] ↔ ∃ a ∈ [6, 6], DepOf srcDemo u a :=
+  (basis_spec srcDemo [6, 6] _ (by decide) (by decide)).1
 
 end CCVerif.Extract
